@@ -93,7 +93,7 @@ structure St where
 /-- with a cancelled context a running/paused worker may already have been stopped by the listener,
     or be observed in the middle of that stop (which passes through Paused) -/
 def agree (s : St) (ref : WStatus) (obs : Option WStatus) : Bool :=
-  obs == some ref || (s.ctxCancelled && (ref == .running || ref == .paused) && (obs == some .stopped || obs == some .paused))
+  obs.isNone || obs == some ref || (s.ctxCancelled && (ref == .running || ref == .paused) && (obs == some .stopped || obs == some .paused))
 
 def onEvent (s : St) (_ : Book) (o : Obs) (_ : Book) : St × List Viol :=
   match o with
@@ -112,13 +112,15 @@ def onEvent (s : St) (_ : Book) (o : Obs) (_ : Book) : St × List Viol :=
       let (eObs, stObs) : Err × Option WStatus := match r with
         | .life e st => (e, st)
         | .bind _ st => (.none, st)
-        | .tune e _ => (e, some st')
+        | .tune e _ => (e, none)            -- TunePool reports no status
         | _ => (e, some st')
       -- a listener of a cancelled context may have stopped the worker before the call
       let alt := if s.ctxCancelled && (s.st == .running || s.st == .paused) then Life.step .stopped s.conc c else none
       let okMain := eObs == e && agree s st' stObs
       let okAlt := match alt with | some (e2, st2) => eObs == e2 && agree s st2 stObs | none => false
-      let s' := if okMain then { s with st := st' } else match alt with | some (_, st2) => if okAlt then { s with st := st2 } else { s with st := st' } | none => { s with st := st' }
+      -- when only the alternative matched, the worker is somewhere on its way to Stopped (listener of a
+      -- cancelled context): keep the reference until Stopped is actually observed
+      let s' := if okMain then { s with st := st' } else if okAlt then s else { s with st := st' }
       let s' := match c, r with | .tune n, .tune .none _ => { s' with conc := C02.limOf 16 n } | _, _ => s'
       let s' := if stObs == some .stopped && s.ctxCancelled then { s' with st := .stopped } else s'
       (s', if okMain || okAlt then [] else [s!"{repr c} in state {repr s.st} returned ({repr eObs}, {repr stObs}); the lifecycle machine gives ({repr e}, {repr st'})"])
